@@ -67,9 +67,24 @@ def _norm(n, roles):
     return ast.unparse(_Rename(roles).visit(ast.parse(ast.unparse(n), mode='eval').body))
 
 
+def _conjunct(p, roles):
+    """Normal form of one conjunct of an `include_other` test.  The equivalent ways of saying "this partner is
+    unknown" (`X_NODE is None`, `X_NODE == None`, `X is OTHER`, `X == OTHER`) and of saying "not requested"
+    (`not include_other`, `include_other is False`, `include_other == False`) collapse; anything else
+    (truthiness of the node id, …) stays as source text."""
+    t = _norm(p, roles)
+    for side in ('SRC', 'TGT'):
+        if t in (f'{side}_NODE is None', f'{side}_NODE == None', f'{side} is OTHER', f'{side} == OTHER', f'OTHER == {side}',
+                 f'None is {side}_NODE'):
+            return f'UNKNOWN({side})'
+    if t in ('not include_other', 'include_other is False', 'include_other == False'):
+        return 'NOT_REQUESTED'
+    return t
+
+
 def _conjuncts(test, roles):
     parts = test.values if isinstance(test, ast.BoolOp) and isinstance(test.op, ast.And) else [test]
-    return sorted(_norm(p, roles) for p in parts)
+    return sorted(_conjunct(p, roles) for p in parts)
 
 
 def _names(t):
@@ -355,7 +370,10 @@ def digraph_facts(tree):
     w = kws.get('weight')
     if w is None:
         raise ValueError('to_digraph: add_edge has no weight')
-    if isinstance(w, ast.Call) and isinstance(w.func, ast.Name) and w.func.id == 'len' and len(w.args) == 1 and isinstance(w.args[0], ast.Name):
+    is_len = isinstance(w, ast.Call) and isinstance(w.func, ast.Name) and w.func.id == 'len' and len(w.args) == 1 and isinstance(w.args[0], ast.Name)
+    is_shape0 = isinstance(w, ast.Subscript) and isinstance(w.value, ast.Attribute) and w.value.attr == 'shape' \
+        and isinstance(w.value.value, ast.Name) and isinstance(w.slice, ast.Constant) and w.slice.value == 0
+    if is_len or is_shape0:
         weight = 'len(rows)'        # `rows`, `df_tmp`, `df` all have one row per appended edge
         # … unless the table is de-duplicated / filtered on the way
         for n in ast.walk(fn):
@@ -425,11 +443,27 @@ def group_matrix_facts(tree):
             if isinstance(n, ast.Assign) and isinstance(n.targets[0], ast.Subscript) and isinstance(n.targets[0].slice, ast.Constant) \
                     and n.targets[0].slice.value == col and isinstance(n.value, ast.ListComp):
                 lc = n.value
-                v = lc.generators[0].target.id
-                label = (_norm(lc.elt, {v: 'LABEL'}), ast.unparse(lc.generators[0].iter))
+                v = lc.generators[0].target.id if isinstance(lc.generators[0].target, ast.Name) else '?'
+                e = lc.elt
+                if isinstance(e, ast.Call) and isinstance(e.func, ast.Attribute) and e.func.attr == 'get' \
+                        and isinstance(e.func.value, ast.Name) and e.func.value.id == col and not e.keywords \
+                        and all(isinstance(a, ast.Name) and a.id == v for a in e.args):
+                    label = 'get(label, label)' if len(e.args) == 2 else 'get(label)'
+                else:
+                    label = _norm(e, {v: 'LABEL'})
+                if 'index' not in ast.unparse(lc.generators[0].iter) or lc.generators[0].ifs:
+                    label += ' over ' + ast.unparse(lc.generators[0].iter)
             # if drop_ungrouped: mat = mat.loc[mat.index.isin(row_groups.keys())]
             if isinstance(n, ast.If) and isinstance(n.test, ast.Name) and n.test.id == 'drop_ungrouped':
-                drop = ast.unparse(n.body[0].value) if len(n.body) == 1 and isinstance(n.body[0], ast.Assign) else '?'
+                rhs = n.body[0].value if len(n.body) == 1 and isinstance(n.body[0], ast.Assign) else None
+                isin = [c for c in ast.walk(rhs) if isinstance(c, ast.Call) and isinstance(c.func, ast.Attribute) and c.func.attr == 'isin'] if rhs is not None else []
+                negated = rhs is not None and any(isinstance(c, ast.UnaryOp) and isinstance(c.op, (ast.Invert, ast.Not)) for c in ast.walk(rhs))
+                if len(isin) == 1 and not negated and 'index' in ast.unparse(isin[0].func.value) \
+                        and any(isinstance(x, ast.Name) and x.id == col for x in ast.walk(isin[0].args[0])) \
+                        and 'values' not in ast.unparse(isin[0].args[0]):
+                    drop = 'keep index.isin(keys)'
+                else:
+                    drop = ast.unparse(rhs) if rhs is not None else '?'
         transposes = sum(1 for n in ast.walk(stmt) if isinstance(n, ast.Attribute) and n.attr == 'T')
         return aggs, label, drop, transposes
 
@@ -450,14 +484,33 @@ def group_matrix_facts(tree):
         if isinstance(st, ast.If) and isinstance(st.test, ast.BoolOp) and isinstance(st.test.op, ast.And) and len(st.body) == 1 \
                 and isinstance(st.body[0], ast.Assign) and isinstance(st.body[0].value, ast.DictComp):
             which = st.test.values[0].id if isinstance(st.test.values[0], ast.Name) else '?'
-            fmt.append((which, ast.unparse(st.test.values[1]).replace(which, 'G'), ast.unparse(st.body[0].value).replace(which, 'G')))
-    strconv = sorted(x for x in ['mat.index = mat.index.astype(str)', 'mat.columns = mat.columns.astype(str)',
-                                 'col_groups = {str(k): str(v) for k, v in col_groups.items()}',
-                                 'row_groups = {str(k): str(v) for k, v in row_groups.items()}'] if x in src)
+            det = ast.unparse(st.test.values[1]).replace(which, 'G')
+            if 'is_iterable' in det and 'values()' in det and det.rstrip(')').endswith('[0]'):
+                det = 'first value is iterable'
+            dc = st.body[0].value
+            inv = ast.unparse(dc).replace(which, 'G')
+            if len(dc.generators) == 2 and isinstance(dc.key, ast.Name) and isinstance(dc.value, ast.Name) \
+                    and dc.key.id == getattr(dc.generators[1].target, 'id', None) and dc.value.id == getattr(dc.generators[0].target, 'id', None) \
+                    and not dc.generators[0].ifs and not dc.generators[1].ifs:
+                inv = 'member -> group, later groups win'
+            fmt.append((which, det, inv))
+    # str() of labels and of both sides of the dicts
+    strconv = []
+    for n in ast.walk(fn):
+        if isinstance(n, ast.Assign) and isinstance(n.targets[0], ast.Attribute) and n.targets[0].attr in ('index', 'columns') \
+                and 'astype(str)' in ast.unparse(n.value) and n.targets[0].attr in ast.unparse(n.value):
+            strconv.append('labels:' + n.targets[0].attr)
+        if isinstance(n, ast.Assign) and isinstance(n.targets[0], ast.Name) and n.targets[0].id in ('row_groups', 'col_groups') \
+                and isinstance(n.value, ast.DictComp) and len(n.value.generators) == 1 \
+                and ast.unparse(n.value.key).startswith('str(') and ast.unparse(n.value.value).startswith('str('):
+            strconv.append('dict:' + n.targets[0].id)
+    strconv = sorted(set(strconv))
+    copies = any(isinstance(n, ast.Assign) and isinstance(n.value, ast.Call) and isinstance(n.value.func, ast.Attribute)
+                 and n.value.func.attr in ('copy', 'deepcopy') for n in ast.walk(fn))
     return dict(methods=methods, rowAgg=sorted(rows[0].items()), colAgg=sorted(cols[0].items()),
-                rowLabel=list(rows[1] or ['?', '?']), colLabel=list(cols[1] or ['?', '?']), rowDrop=rows[2] or 'none', colDrop=cols[2] or 'none',
+                rowLabel=rows[1] or '?', colLabel=cols[1] or '?', rowDrop=rows[2] or 'none', colDrop=cols[2] or 'none',
                 rowTransposes=rows[3], colTransposes=cols[3], order=order, formats=sorted(fmt), strConversions=strconv,
-                copies='mat = mat.copy()' in src,
+                copies=copies,
                 defaultMethod=_default_of(fn, 'method'), defaultDrop=_default_of(fn, 'drop_ungrouped'))
 
 
@@ -556,7 +609,7 @@ def generate(repo: Path):
     L.append('/-- `SRC, SRC_NODE = self.<srcDict>.get(CID, <default>)` -/')
     L.append(f'def srcDict : String := {lstr(ed["srcDict"])}')
     L.append(f'def srcDefault : List String := {lstrs(ed["srcDefault"])}')
-    L.append('/-- conjuncts (sorted) of the `if …: continue` on the outer level, before the inner loop -/')
+    L.append('/-- conjuncts (sorted, normalised) of the `if …: continue` on the outer level, before the inner loop -/')
     L.append(f'def srcSkip : List String := {lstrs(ed["srcSkip"])}')
     L.append('/-- `for TGT, TGT_NODE in self.<tgtDict>.get(CID, [<default>])` -/')
     L.append(f'def tgtDict : String := {lstr(ed["tgtDict"])}')
@@ -604,17 +657,17 @@ def generate(repo: Path):
     L.append('/-- method literal ↦ pandas aggregation called on `groupby(<axis>_groups)`, sorted by method -/')
     L.append(f'def gmRowAgg : List (String × String) := {lpairs(gm["rowAgg"])}')
     L.append(f'def gmColAgg : List (String × String) := {lpairs(gm["colAgg"])}')
-    L.append('/-- `[<expr> for LABEL in <iter>]` assigned to the temporary grouping column -/')
-    L.append(f'def gmRowLabel : List String := {lstrs(gm["rowLabel"])}')
-    L.append(f'def gmColLabel : List String := {lstrs(gm["colLabel"])}')
-    L.append('/-- right-hand side of the `if drop_ungrouped:` assignment -/')
+    L.append('/-- label of a row / column in the temporary grouping column: `<axis>_groups.get(label, label)` over the index -/')
+    L.append(f'def gmRowLabel : String := {lstr(gm["rowLabel"])}')
+    L.append(f'def gmColLabel : String := {lstr(gm["colLabel"])}')
+    L.append('/-- what the `if drop_ungrouped:` assignment keeps -/')
     L.append(f'def gmRowDrop : String := {lstr(gm["rowDrop"])}')
     L.append(f'def gmColDrop : String := {lstr(gm["colDrop"])}')
     L.append('/-- number of `.T` in each branch, and the order of the two branches -/')
     L.append(f'def gmRowTransposes : Nat := {gm["rowTransposes"]}')
     L.append(f'def gmColTransposes : Nat := {gm["colTransposes"]}')
     L.append(f'def gmOrder : List String := {lstrs(gm["order"])}')
-    L.append('/-- dict-format detection and inversion per axis (dict variable normalised to G) -/')
+    L.append('/-- dict-format detection and inversion per axis -/')
     L.append('def gmFormats : List (String × String × String) := ['
              + ', '.join(f'({lstr(a)}, {lstr(b)}, {lstr(c)})' for a, b, c in gm['formats']) + ']')
     L.append(f'def gmStrConversions : List String := {lstrs(gm["strConversions"])}')
